@@ -68,7 +68,7 @@ var defs = map[string]checkDef{
 	"C17": {Engine: "A", Pkg: "./enga", MinEvals: 1000},
 	"C18": {Engine: "A", Pkg: "./enga", MinEvals: 1000},
 	"C19": {Engine: "A", Pkg: "./enga", MinEvals: 500},
-	"C13": {Engine: "A", Pkg: "./enga", MinEvals: 132496, Exhaust: false},
+	"C13": {Engine: "A", Pkg: "./enga", MinEvals: 132496, Exhaust: false, RacePart: true, RaceN: 4},
 }
 
 var home = "/verif"
